@@ -62,6 +62,8 @@ func c18(w *core.World, r *core.Report) {
 
 	r.Rule("R18.9", "the slot-tag table behind the control keys is read only after it was built", 1)
 	ruleSlotTagTablePublished(w, r)
+	r.Rule("R18.11", "keys that one target node resolved are used: an error is reported only when no node answered", 1)
+	ruleResolvedKeysWin(w, r)
 	r.Rule("R18.10", "the relaxed slot mode (forced slot 0, cross-slot accepted) is selected by 'the target is not a cluster' and nothing narrower", 1)
 	ruleSlotModeByTargetKind(w, r)
 	r.Rule("R18.4", "cluster client re-validation before MULTI is sent", 4)
@@ -788,4 +790,93 @@ func ruleSlotModeByTargetKind(w *core.World, r *core.Report) {
 		return
 	}
 	r.Check(bad == "" && relaxed > 0 && strict > 0, "bisyncSlotMode/by-target-kind", pos, "%s (relaxed paths=%d, strict paths=%d)", bad, relaxed, strict)
+}
+
+// ---------------------------------------------------------------- R18.11 keys one node resolved are used, whatever another node answered
+
+// ruleResolvedKeysWin: for a command outside the static key table the target
+// nodes are asked (COMMAND GETKEYS) until one answers. Once a node has answered,
+// the keys are known; an error another node gave before that does not make them
+// unknown. The resolver may report an error only on a path that established that
+// no node answered — otherwise a command whose keys share one slot is refused and
+// the replay stops on it for good.
+func ruleResolvedKeysWin(w *core.World, r *core.Report) {
+	f := fn(w, r, "syncer.resolveBisyncCommandKeys")
+	if f == nil {
+		return
+	}
+	// the "a node has answered" flag: a bool shared with the callback, which sets it to true
+	var found *ssa.Alloc
+	for _, g := range core.DeepFuncs(f) {
+		if g == f {
+			continue
+		}
+		for _, in := range core.OwnInstrs(g) {
+			st, ok := in.(*ssa.Store)
+			if !ok {
+				continue
+			}
+			if b, isB := core.ConstBool(st.Val); !isB || !b {
+				continue
+			}
+			if c := core.Cell(st.Addr); c != nil && c.Parent() == f {
+				found = c
+			}
+		}
+	}
+	var iter ssa.Instruction
+	for _, s := range core.Sites(f, false) {
+		if s.Instr.Parent() == f && s.Common().IsInvoke() && s.Method == "IterateNodes" {
+			iter = s.Instr
+		}
+	}
+	if found == nil || iter == nil {
+		r.Undecided("resolveBisyncCommandKeys/resolved-keys-win", f.Pos(), "the node iteration or its 'answered' flag was not found")
+		return
+	}
+	isFound := func(v ssa.Value) bool {
+		ld, ok := core.Unwrap(v).(*ssa.UnOp)
+		return ok && ld.Op == token.MUL && core.Cell(ld.X) == found
+	}
+	bad := ""
+	var pos token.Pos = f.Pos()
+	n := 0
+	okEnum := core.EnumPathsN(f.Blocks[0], 0, 100000, 1, func(p *core.Path) {
+		ret, isRet := p.End.(*ssa.Return)
+		if !isRet || ret.Parent() != f || len(ret.Results) != 3 || bad != "" {
+			return
+		}
+		after := false
+		for _, in := range p.Instrs {
+			if in == iter {
+				after = true
+			}
+		}
+		if os.Getenv("GUNYU_DEBUG") != "" {
+			fmt.Println("DEBUG r18.11 ret", w.Pos(ret.Pos()), "after", after, "nil", pathNil(p, ret.Results[2]), p.Resolve(ret.Results[2]).String())
+		}
+		if !after || pathNil(p, ret.Results[2]) {
+			return
+		}
+		n++
+		seen := false
+		for _, fct := range factsBetween(p, iter, ret) {
+			if !fct.Val && isFound(p.Resolve(fct.Cond)) {
+				seen = true
+			}
+			if fct.Val {
+				if u, ok := core.Unwrap(p.Resolve(fct.Cond)).(*ssa.UnOp); ok && u.Op == token.NOT && isFound(u.X) {
+					seen = true
+				}
+			}
+		}
+		if !seen {
+			bad, pos = "an error is reported after the nodes were asked on a path that did not establish that no node answered: keys that one node resolved are thrown away because another node failed, and a single-slot command is refused", ret.Pos()
+		}
+	})
+	if !okEnum {
+		r.Undecided("resolveBisyncCommandKeys/resolved-keys-win", f.Pos(), "too many paths")
+		return
+	}
+	r.Check(bad == "" && n > 0, "resolveBisyncCommandKeys/resolved-keys-win", pos, "%s", bad)
 }
